@@ -12,16 +12,17 @@ static std::string check_buffer(const uint8_t* buf, unsigned mask, const char** 
     polyseed_enable_features((mask & 8u) ? (0xFFFFFFF8u | (mask & 7u)) : mask);   // bit 3 of the case's mask selects an enabling argument with every higher bit set; only the three user bits may count
     mask &= 7u;
     // exactly-sized heap copy: reading a 33rd byte hits a red zone
-    uint8_t* in = (uint8_t*)malloc(32); memcpy(in, buf, 32);
+    static unsigned parity = 0; unsigned off = (parity++ & 1);   // every other buffer starts at an odd address: the codec may not assume alignment
+    uint8_t* raw = (uint8_t*)malloc(32 + off); uint8_t* in = raw + off; memcpy(in, buf, 32);
     size_t live_before = k.live.size();
     polyseed_data* s = nullptr; int st = polyseed_load(in, &s);
-    bool modified = memcmp(in, buf, 32) != 0; free(in);
+    bool modified = memcmp(in, buf, 32) != 0; free(raw);
     if (modified) return "load modified its input buffer";
     model::Seed ms; int expect = model::load_verdict(buf, mask, &ms);
     static const char* names[] = {"OK", "", "", "CHECKSUM", "UNSUPPORTED", "FORMAT"}; *cls = expect <= 5 ? names[expect] : "?";
     if (st != expect) { if (st == 0) polyseed_free(s); return std::string("load returned ") + model::status_name(st) + ", the specification says " + model::status_name(expect) + " for buffer " + hex(buf, 32) + " (enabled mask " + std::to_string(mask) + ")"; }
     if (st == 0) {
-        lib::Image back = lib::store(s);
+        lib::Image back; { uint8_t* r2 = (uint8_t*)malloc(33); polyseed_store(s, r2 + 1); memcpy(back.data(), r2 + 1, 32); free(r2); }   // store into an odd address as well
         if (memcmp(back.data(), buf, 32) != 0) { polyseed_free(s); return "store(load(buf)) != buf: " + hex(back.data(), 32) + " vs " + hex(buf, 32); }
         if (polyseed_get_birthday(s) != model::birthday_time(ms.birthday)) { polyseed_free(s); return "loaded seed reports a different birthday"; }
         if (polyseed_is_encrypted(s) != (int)((ms.features >> 4) & 1)) { polyseed_free(s); return "loaded seed reports a different encryption flag"; }
